@@ -48,7 +48,8 @@ Identity == <<-1>>
 Max(a, b) == IF a > b THEN a ELSE b
 Min(a, b) == IF a < b THEN a ELSE b
 
-ModerateClasses == {"ok", "zero"}
+\* finite gradients of moderate magnitude: zero, or 1e-12 .. 1e12
+ModerateClasses == {"ok", "zero", "big", "small"}
 
 CfgOK(c) ==
   /\ c.S \in Nat \ {0} /\ c.P \in Nat \ {0} /\ c.Start \in Nat
@@ -118,8 +119,7 @@ Update(g, e, cf, uf) ==
   /\ count' = count + 1
   /\ UNCHANGED cfg
 
-Init ==
-  /\ cfg \in Cfgs
+InitRest ==
   /\ count = 0
   /\ statsProv = <<>>
   /\ stored = Identity
@@ -130,6 +130,8 @@ Init ==
   /\ finStored = TRUE
   /\ finUpd = TRUE
   /\ moderate = TRUE
+
+Init == cfg \in Cfgs /\ InitRest
 
 Next == \E g \in GradClasses, e \in ErrClasses, cf \in BOOLEAN, uf \in BOOLEAN :
            Update(g, e, cf, uf)
